@@ -35,12 +35,32 @@ func runSeeds(props map[string]bool) ([]selftestResult, bool) {
 	self, _ := os.Executable()
 	var out []selftestResult
 	allCaught := true
+	type job struct {
+		m     seedMeta
+		patch string
+	}
+	var jobs []job
 	for _, mf := range dirs {
 		var m seedMeta
 		data, err := os.ReadFile(mf)
 		if err != nil || json.Unmarshal(data, &m) != nil || !m.Confirmed {
 			continue
 		}
+		jobs = append(jobs, job{m, filepath.Join(filepath.Dir(mf), "patch.diff")})
+	}
+	// own probes: selftest/mutants/<name>.patch with <name>.prop naming the property whose check must fail
+	own, _ := filepath.Glob(filepath.Join(verifRoot, "selftest", "mutants", "*.patch"))
+	sort.Strings(own)
+	for _, pf := range own {
+		pb, err := os.ReadFile(strings.TrimSuffix(pf, ".patch") + ".prop")
+		if err != nil {
+			continue
+		}
+		jobs = append(jobs, job{seedMeta{ID: "own:" + strings.TrimSuffix(filepath.Base(pf), ".patch"), Property: strings.TrimSpace(string(pb)), Confirmed: true}, pf})
+	}
+	for _, jb := range jobs {
+		m := jb.m
+		mf := jb.patch
 		if len(props) > 0 && !props[m.Property] {
 			continue
 		}
@@ -60,7 +80,7 @@ func runSeeds(props map[string]bool) ([]selftestResult, bool) {
 				r.Note = "copy failed: " + string(b)
 				return
 			}
-			p := exec.Command("patch", "-s", "-p1", "--no-backup-if-mismatch", "-i", filepath.Join(filepath.Dir(mf), "patch.diff"))
+			p := exec.Command("patch", "-s", "-p1", "--no-backup-if-mismatch", "-i", mf)
 			p.Dir = scr
 			if b, err := p.CombinedOutput(); err != nil {
 				r.Note = "patch does not apply to the current tree: " + clip(string(b), 200)
